@@ -267,6 +267,21 @@ def run_case(case, ctx):
                 if got2 is not None:
                     ctx.check("rel.explicit-eq-instance", _nan_equal(got2, getattr(_mk(fam, mixed), meth)(arg)), f"{fam}.{meth}: {k} positional None placeholder(s) and {last} by keyword != instance built with it", family=fam, parameter=last, method=meth, value=p[last], other=other)
 
+    # ---- an instance built with a FIXED parameter, evaluated with that parameter passed explicitly (what a conditional
+    #      distribution does on every call): the explicit value is the one in force, as for a plain instance ----
+    if fam != "lnnf":
+        for n in names:
+            try:
+                fixed_inst = S.classes()[fam](**{f"f_{n}": other[n]}, **{k: v for k, v in other.items() if k != n})
+            except TypeError:
+                continue
+            mixed = dict(other)
+            mixed[n] = p[n]
+            ref_inst = _mk(fam, mixed)
+            for meth, arg in (("cdf", x), ("pdf", x), ("icdf", probs)):
+                got = getattr(fixed_inst, meth)(arg, **{n: p[n]})
+                ctx.check("rel.explicit-eq-instance", _nan_equal(got, getattr(ref_inst, meth)(arg)), f"{fam}.{meth}: explicit {n} on an instance built with f_{n} != instance built with the explicit value", family=fam, parameter=n, method=meth, value=p[n], fixed_at=other[n])
+
     # ---- integer-typed explicit parameter values (Python int, numpy integer, integer array) == the same value as float ----
     if fam != "lnnf":
         for n in names:
